@@ -450,7 +450,72 @@ Section Helper.
 
   Definition connect_run (cs : list comp) : run_res :=
     loop (enough_fuel cs) (map (fun c => (c, INITIALIZED)) cs) init_world.
+
+  (** positions (from [k], in list order) of the components with an outstanding declared item *)
+  Fixpoint stuck_idx (w : world) (k : nat) (cs : list comp) : list nat :=
+    match cs with
+    | [] => []
+    | c :: r => if all_done c w then stuck_idx w (S k) r else k :: stuck_idx w (S k) r
+    end.
 End Helper.
+
+(** every slot belongs to at most one component, listed once *)
+Definition disjoint_slots (cs : list comp) : Prop :=
+  NoDup (flat_map c_ins cs) /\ NoDup (flat_map c_outs cs).
+
+(** * Declarative derivation rules of the exchanges (to state the fixed-point property) *)
+Section Derive.
+  Variable sp : spec.
+  Variable cs : list comp.
+
+  Definition own_in (i : nat) : Prop := In i (flat_map c_ins cs).
+  Definition own_out (o : nat) : Prop := In o (flat_map c_outs cs).
+
+  Definition rule_src (r : rule) : option item :=
+    match r with FromIn i _ => Some (IInInfo i) | FromOut o _ => Some (IOutInfo o) | FromVal _ => None end.
+  Definition sets_time (r : rule) : bool :=
+    match r with FromIn _ b => b | FromOut _ b => b | FromVal v => is_some v end.
+
+  Definition deps_in (P : item -> Prop) (ds : list dep) : Prop := forall d, In d ds -> P (dep_item d).
+  Definition rules_in (P : item -> Prop) (rs : list rule) : Prop :=
+    (forall r it, In r rs -> rule_src r = Some it -> P it) /\ existsb sets_time rs = true.
+
+  (** one-step consequence: [step P it] = "[it] can be exchanged once the items in [P] are" *)
+  Definition step (P : item -> Prop) (it : item) : Prop :=
+    match it with
+    | IInfoPushed o =>
+        os_own (sp_out sp o) <> None
+        \/ (own_out o /\ ((exists ds t, os_prov_info (sp_out sp o) = Some (ds, t) /\ deps_in P ds)
+                          \/ (exists rs, os_rules (sp_out sp o) = Some rs /\ rules_in P rs)))
+    | IInInfo i =>
+        own_in i
+        /\ (is_own (sp_in sp i) <> None
+            \/ (exists ds t, is_prov (sp_in sp i) = Some (ds, t) /\ deps_in P ds)
+            \/ (exists rs, is_rules (sp_in sp i) = Some rs /\ rules_in P rs))
+        /\ P (IInfoPushed (is_src (sp_in sp i)))
+    | IOutInfo o =>
+        own_out o /\ P (IInfoPushed o)
+        /\ (forall i, In i (sp_ins sp) -> is_src (sp_in sp i) = o -> P (IInInfo i))
+    | IDataPushed o =>
+        own_out o /\ (exists ds p, os_prov_data (sp_out sp o) = Some (ds, p) /\ deps_in P ds)
+        /\ P (IInfoPushed o) /\ P (IOutInfo o)
+    | IPulled i =>
+        own_in i /\ is_pull (sp_in sp i) = true /\ P (IInInfo i) /\ P (IDataPushed (is_src (sp_in sp i)))
+    end.
+
+  Definition closed (P : item -> Prop) : Prop := forall it, step P it -> P it.
+
+  (** the least set closed under the rules (least fixed point of [step]) *)
+  Definition derivable (it : item) : Prop := forall P, closed P -> P it.
+
+  Definition has_rules (c : comp) : Prop :=
+    (exists i, In i (c_ins c) /\ is_rules (sp_in sp i) <> None)
+    \/ (exists o, In o (c_outs c) /\ os_rules (sp_out sp o) <> None).
+
+  Definition wf_setup : Prop :=
+    disjoint_slots cs /\ NoDup (sp_ins sp) /\ (forall i, In i (sp_ins sp) <-> own_in i)
+    /\ (forall c, In c cs -> has_rules c -> c_cache c = true).
+End Derive.
 
 (** * Scripted sequences of direct ConnectHelper.connect calls (tests/tools/test_connect.py style) *)
 
